@@ -59,53 +59,48 @@ func NewAutoEscapeExtension() *AutoEscapeExtension {
 
 // AutoEscapeVisitor can be used to automatically apply the "escape" filter
 // to any PrintNode.
+//
+// The visitor keeps no state between calls: one instance is shared by every
+// template parsed with the Env, possibly at the same time.
 type autoEscapeVisitor struct {
-	ext   *AutoEscapeExtension
-	stack []string
+	ext *AutoEscapeExtension
 }
 
-// push adds the given name on top of the stack.
-func (v *autoEscapeVisitor) push(name string) {
-	v.stack = append(v.stack, name)
-}
-
-// pop removes the top-most name on the stack.
-func (v *autoEscapeVisitor) pop() {
-	if len(v.stack) > 0 {
-		v.stack = v.stack[0 : len(v.stack)-1]
-	}
-}
-
-func (v *autoEscapeVisitor) current() string {
-	if len(v.stack) == 0 {
-		// TODO: This is an invalid state.
-		return ""
-	}
-	return v.stack[len(v.stack)-1]
-}
-
+// Enter escapes the print statements of a module or block for the content
+// type of the template that defines it.
 func (v *autoEscapeVisitor) Enter(n parse.Node) {
 	switch node := n.(type) {
 	case *parse.ModuleNode:
-		v.push(v.guessTypeFromName(node.Origin))
+		v.escapePrints(node.BodyNode, v.guessTypeFromName(node.Origin))
 	case *parse.BlockNode:
-		v.push(v.guessTypeFromName(node.Origin))
-	case *parse.PrintNode:
-		ct := v.current()
-		v := node.X
-		r := parse.NewFilterExpr(
-			"escape",
-			[]parse.Expr{v, parse.NewStringExpr(ct, v.Start())},
-			v.Start(),
-		)
-		node.X = r
+		v.escapePrints(node.Body, v.guessTypeFromName(node.Origin))
 	}
 }
 
-func (v *autoEscapeVisitor) Leave(n parse.Node) {
-	switch n.(type) {
-	case *parse.ModuleNode, *parse.BlockNode:
-		v.pop()
+func (v *autoEscapeVisitor) Leave(n parse.Node) {}
+
+// escapePrints wraps the expression of every print statement below n in the
+// escape filter for content type ct. Blocks are not descended into: they are
+// entered on their own, with the content type of their own origin.
+func (v *autoEscapeVisitor) escapePrints(n parse.Node, ct string) {
+	switch node := n.(type) {
+	case nil:
+		return
+	case *parse.BlockNode:
+		return
+	case *parse.PrintNode:
+		x := node.X
+		node.X = parse.NewFilterExpr(
+			"escape",
+			[]parse.Expr{x, parse.NewStringExpr(ct, x.Start())},
+			x.Start(),
+		)
+		return
+	}
+	for _, c := range n.All() {
+		if c != nil {
+			v.escapePrints(c, ct)
+		}
 	}
 }
 
